@@ -31,7 +31,8 @@ RULE = ('grid: fixed diagrams (pk kinds int/auto/str/composite, required/optiona
         '(complete in the thorough tier; the quick tier is complete for with-block sessions of the first diagram, applies a '
         'seed-dependent half of the operations elsewhere and uses decorator, generator and two-database sessions with the '
         'first diagram only); sessions may also span a second '
-        'database (touched first or last, read or written) and end with a COMMIT that fails on either database; diagrams '
+        'database (touched first or last, read or written) and end with a COMMIT that fails on either database, and the '
+        'connection may die at the end of any session so that its final ROLLBACK / release fails; diagrams '
         'may carry Json / int-array attributes whose values are changed in place (through the attribute or through the '
         'container kept from the session); random: hypothesis-generated diagrams, rows, in-session scripts and operation sequences of length '
         '1..12. A case is one (scenario, operation) evaluation; non-trivial = anything but a plain read of an object '
@@ -373,6 +374,8 @@ def op_classes(op, case, status):
         cl.append('two-databases')
     if case.get('fault'):
         cl.append('fault:' + case['fault'])
+    if case.get('rb_fault'):
+        cl.append('rollback-fault')
     if k == 'mutate':
         cl.append('mutate-via:' + (op[1] if op[0] == 'new' else op)[4])
     if status:
@@ -444,6 +447,7 @@ def describe(case):
             (json.dumps(case['diagram'], sort_keys=True), json.dumps(case['prep']), case['end'],
              case.get('form', 'with') + ('/' + case['gen'] if case.get('gen') else ''), case['strict'])
             + ((' fault=%s' % case['fault']) if case.get('fault') else '')
+            + ((' final ROLLBACK/release fails on %s' % case['rb_fault']) if case.get('rb_fault') else '')
             + ((' second database %s: %s' % (case['aux']['order'], json.dumps(case['aux']['script']))) if case.get('aux') else ''))
 
 
@@ -546,6 +550,11 @@ def grid_scenarios(tier):
                     if end == 'commit_fault':
                         case['fault'] = 'main'
                     out.append((status, case))
+                    # the same session whose connection dies at its end: the final ROLLBACK / release fails
+                    if gen in (None, 'exhaust') and end != 'commit_exception':
+                        if tier == 'quick' and not (form == 'with' or (form == 'decorator' and end == 'exception')):
+                            continue
+                        out.append((status, dict(case, rb_fault='main')))
         # sessions that span two databases: the second one is touched before or after the first, read or written,
         # and the final commit may fail on either of them
         two = [x for x in presets(d) if x[0] in (('loaded', 'modified', 'created_linked') if tier == 'quick' else
@@ -572,7 +581,7 @@ def grid_scenarios(tier):
 def evaluate(ctx, env, case, status, shrink_ops):
     """run a case, account for every operation, report violations (open known findings are counted and skipped)"""
     sk = chash([case['diagram'], case['data'], case['prep'], case['end'], case.get('form'), case.get('gen'), case['strict'],
-                case.get('aux'), case.get('fault')])
+                case.get('aux'), case.get('fault'), case.get('rb_fault')])
 
     def on_op(i, op, out, msg):
         sample = None
@@ -641,7 +650,7 @@ def run_grid(ctx, pool):
         for act in (base.get('aux') or {}).get('script', []):
             model.apply_aux(act)
         ops = order_ops(all_ops(model, base['diagram']), ctx.seed, k)
-        if ctx.tier == 'quick' and (base['form'] != 'with' or base.get('aux') or
+        if ctx.tier == 'quick' and (base['form'] != 'with' or base.get('aux') or base.get('rb_fault') or
                                     base['diagram'] != M.norm_diagram(GRID_DIAGRAMS_QUICK[0])):
             ops = ops[::2]      # quick tier: complete for with-block sessions of the first diagram, a seed-dependent
                                 # half of the operations everywhere else
@@ -904,6 +913,8 @@ def case_strategy(tier):
                 case['aux'] = {'order': draw(st.sampled_from(['first', 'last'])), 'script': ascript}
         if case['end'] == 'commit_fault':
             case['fault'] = draw(st.sampled_from(['main', 'aux'])) if case.get('aux') else 'main'
+        if case.get('gen', 'exhaust') == 'exhaust' and draw(st.integers(0, 3)) == 0:
+            case['rb_fault'] = draw(st.sampled_from(['main', 'aux'])) if case.get('aux') else 'main'
         pool_ops = all_ops(model, d)
         if not pool_ops:
             ops = []
